@@ -984,6 +984,10 @@ class Engine:
             return Int(0)
         if op in ("updrng", "updidx"):
             return self.length(state, v.args[0])
+        if op == "index":
+            el = self.elem_len(state, v.args[0])
+            if el is not None:
+                return el
         if op == "inserted":
             return binop("Add", self.length(state, v.args[0]), Int(1), "usize")
         if op in ("collected", "cloned_iter"):
@@ -1014,6 +1018,34 @@ class Engine:
         return mk("len", v)
 
     # ---------------- calls ----------------
+    def elem_len(self, state, v, _depth=0, _self=None):
+        """common constant length of every element of an array / vector of byte strings (None if not uniform / unknown)"""
+        if _depth > 6:
+            return None
+        op = v.op
+        if op == "from_elem":
+            r = self.length(state, v.args[0])
+            return r if r.op == "int" else None
+        if op == "agg" and v.args[0] == "array" and len(v.args) > 1:
+            ls = [self.length(state, a) for a in v.args[1:]]
+            return ls[0] if all(l.op == "int" and l.args[0] == ls[0].args[0] for l in ls) and ls[0].op == "int" else None
+        if op == "updidx":
+            a = self.elem_len(state, v.args[0], _depth + 1, _self)
+            b = self.length(state, v.args[2])
+            return a if a is not None and b.op == "int" and b.args[0] == a.args[0] else None
+        if op == "phi":
+            vals = [w for w in (PHI.get(v.args[0]) or {}).values() if w is not v and w is not _self]
+            ls = []
+            for w in vals:
+                if w.op == "updidx" and w.args[0] is v:
+                    ls.append(self.length(state, w.args[2]))
+                else:
+                    ls.append(self.elem_len(state, w, _depth + 1, v))
+            if ls and all(l is not None and l.op == "int" and l.args[0] == ls[0].args[0] for l in ls):
+                return ls[0]
+            return None
+        return None
+
     def size_of(self, ty, crate, _depth=0):
         """a LOWER bound (> 0) of size_of::<ty>() in bytes, or None when unknown / possibly zero-sized"""
         ty = ty.strip()
